@@ -666,6 +666,41 @@ def _list_method(interp, lst, name):
     return None
 
 
+class DictView:
+    """dict.keys() / items() / values(): a live view; iterating while the
+    dict changes size raises RuntimeError as in CPython"""
+
+    def __init__(self, d, kind):
+        self.d = d
+        self.kind = kind
+
+    def snapshot(self):
+        if self.kind == 'keys':
+            return list(self.d.keys())
+        if self.kind == 'values':
+            return list(self.d.values())
+        return [(k, v) for k, v in self.d.items()]
+
+    def sym_iter(self, interp):
+        return self.snapshot()
+
+    def live_iter(self):
+        n = len(self.d)
+        for x in self.snapshot():
+            if len(self.d) != n:
+                raise_('RuntimeError', 'dictionary changed size during '
+                       'iteration')
+            yield x
+        if len(self.d) != n:
+            raise_('RuntimeError', 'dictionary changed size during iteration')
+
+    def sym_len(self, interp):
+        return len(self.d)
+
+    def sym_contains(self, item, ops):
+        return ops.contains(self.snapshot(), item)
+
+
 def _dict_method(interp, d, name):
     if name in ('clear', 'update', 'pop', 'setdefault'):
         interp.mutlog.append(d)
@@ -678,12 +713,8 @@ def _dict_method(interp, d, name):
                     return default
                 raise
         return Builtin('get', get)
-    if name == 'items':
-        return Builtin('items', lambda: [(k, v) for k, v in d.items()])
-    if name == 'keys':
-        return Builtin('keys', lambda: list(d.keys()))
-    if name == 'values':
-        return Builtin('values', lambda: list(d.values()))
+    if name in ('items', 'keys', 'values'):
+        return Builtin(name, lambda: DictView(d, name))
     if name == 'copy':
         return Builtin('copy', lambda: dict(d))
     if name == 'clear':
@@ -1449,6 +1480,38 @@ def _select_root(interp, rs):
     return r
 
 
+def integral_model(interp, func, a, b, **kw):
+    """assumed contract of scipy.integrate.quad: the definite integral"""
+    ctx = interp.ctx
+
+    def feval(t):
+        if z3.is_const(t) and str(t).startswith('x!'):
+            # probe evaluation at a generic interior point: side conditions
+            # belong to the integrand's own contract, not to the caller
+            saved = list(ctx.side)
+            try:
+                with ctx.assuming(t > 0):
+                    v = interp.call(func, [mk(t)], {})
+            finally:
+                ctx.side[:] = saved
+            return z3real(v)
+        v = interp.call(func, [mk(t) if not isinstance(t, (int, Fraction))
+                               else t], {})
+        return z3real(v)
+    # identify the integrand by its term at a canonical variable
+    x = z3.Real('x!int')
+    if True:
+        key = z3.simplify(feval(x)).sexpr()
+        # atoms inside the integrand are identified by their definitions
+        names = sorted(ctx.atoms.info)
+        for nm in names:
+            if nm in key:
+                inf = ctx.atoms.info[nm]
+                if inf[1] is not None and not isinstance(inf[1], tuple):
+                    key = key.replace(nm, '%s(%s)' % (inf[0], inf[1].sexpr()))
+    return ctx.integral(feval, a, b, key)
+
+
 def external_modules(interp):
     E = {}
 
@@ -1538,6 +1601,11 @@ def external_modules(interp):
                           (isinstance(v, Sym) and v.kind == 'int') or
                           getattr(v, 'np_scalar', None) == 'integer'),
     })
+    E['scipy.integrate'] = _mod('scipy.integrate', {
+        'quad': B('quad', lambda it, func, a, b, **kw:
+                  (integral_model(it, func, a, b), Fraction(0))),
+    })
+    E['scipy'] = _mod('scipy', {'integrate': E['scipy.integrate']})
     E['os'] = _mod('os', {})
     E['re'] = _mod('re', _re_table(interp))
     E['itertools'] = _mod('itertools', {
